@@ -1,6 +1,7 @@
 import HeraModel.VM
 import HeraModel.Generated.Tables
 import HeraModel.Spec.ISA
+import HeraModel.Spec.Encoding
 /-
   Well-formedness of the Python-level machine (property C02) and its abstraction to the
   BitVec machine of `Spec.ISA`; the map from architecture instructions to hera-py classes.
@@ -109,5 +110,18 @@ def Spec.Instr.ofOp (c : Cls) (args : List Int) : Option Instr :=
       | some k => some (.brr k x)
       | none => none
   | _, _ => none
+
+
+/-- The hera-py operation of an encodable instruction. -/
+def Spec.EInstr.toOp : Spec.EInstr → Cls × List Val
+  | .instr i => i.toOp
+  | .swi n => (.SWI, [.int n])
+  | .rti => (.RTI, [])
+
+def Spec.EInstr.ofOp (c : Cls) (args : List Int) : Option Spec.EInstr :=
+  match c, args with
+  | .SWI, [n] => some (.swi n)
+  | .RTI, [] => some .rti
+  | c, args => (Spec.Instr.ofOp c args).map .instr
 
 end Hera
